@@ -101,7 +101,7 @@ func cmdCheck(args []string) int {
 		defer os.RemoveAll(scratch)
 	}
 	P := setup(pkgsOfKeys(cfg.Functions))
-	opts := &runOpts{timeout: timeout, seed: seed, workdir: scratch, jobs: 14}
+	opts := &runOpts{timeout: timeout, seed: seed, workdir: scratch, jobs: 10}
 	results := make([]*FnResult, len(cfg.Functions))
 	var wg sync.WaitGroup
 	fsem := make(chan struct{}, 4)
